@@ -164,7 +164,7 @@ func min[T constraints.Ordered](a, b T) T {
 // Note: Caller SHOULD change the msg id because it's not same as query's.
 func getRespFromCache(msgKey string, backend *cache.Cache[key, *item], lazyCacheEnabled bool, lazyTtl int) (*dns.Msg, bool) {
 	// Lookup cache
-	v, _, _ := backend.Get(key(msgKey))
+	v, cacheExpirationTime, _ := backend.Get(key(msgKey))
 
 	// Cache hit
 	if v != nil {
@@ -179,7 +179,10 @@ func getRespFromCache(msgKey string, backend *cache.Cache[key, *item], lazyCache
 
 		// Msg expired but cache isn't. This is a lazy cache enabled entry.
 		// If lazy cache is enabled, return the response.
-		if lazyCacheEnabled {
+		// An entry that was stored without a stale life (negative and empty
+		// responses) gets here if it expires between backend.Get's reading of
+		// the clock and ours. It is expired, not stale.
+		if lazyCacheEnabled && cacheExpirationTime.After(v.expirationTime) {
 			r := v.resp.Copy()
 			dnsutils.SetTTL(r, uint32(lazyTtl))
 			return r, true
